@@ -42,7 +42,12 @@ def gen_case(rng, tier):
         sites = ["uniform_reinforce"] + ([rng.choice(ALL)] if rng.random() < 0.4 else [])
     else:
         sites = [rng.choice(ALL) for _ in range(rng.randint(2, 3))]
-    return {"kind": kind, "sites": sites, "cond": rng.random() < 0.4, "theta": [round(rng.uniform(-0.8, 0.8), 3), round(rng.uniform(-0.8, 0.8), 3)],
+    cond_site = None
+    if kind in ("enum_only", "mixed") and rng.random() < 0.3:
+        # a site inside one branch of a cond on the first discrete value, followed by non-linear code
+        cond_site = "flip_enum" if kind == "enum_only" else rng.choice(
+            ["flip_enum", "flip_enum", "flip_mvd", "flip_reinforce", "normal_reparam", "normal_reinforce"])
+    return {"kind": kind, "sites": sites, "cond_site": cond_site, "cond": rng.random() < 0.4, "theta": [round(rng.uniform(-0.8, 0.8), 3), round(rng.uniform(-0.8, 0.8), 3)],
             "ret": rng.choice(["poly", "sin", "prod"]), "nodes": 8 if tier == "quick" else 14, "max_leaves": 1000 if tier == "quick" else 8000,
             "real_cfg": rng.choice(["seed", "jit", "mvmap"]), "key": rng.randint(0, 2**30)}
 
@@ -117,6 +122,14 @@ def build(case):
             if first_disc is None and (name.startswith("flip") or name == "cat_enum_parallel"):
                 first_disc = v
             acc = fold(jnp, acc, v, t1)
+        if case.get("cond_site") and first_disc is not None:
+            cs = case["cond_site"]
+            pred = first_disc if first_disc.dtype == jnp.bool_ else first_disc > 0
+
+            def with_site(z):
+                return fold(jnp, z, prim(cs)(*site_params(jnp, cs, z, t1)), t1)
+
+            acc = jax.lax.cond(pred, with_site, lambda z: 0.7 * z, acc)
         r = ret_fn(jnp, kind, acc, t0, None)
         if use_cond and first_disc is not None:
             pred = first_disc if first_disc.dtype == jnp.bool_ else first_disc > 0
@@ -126,19 +139,24 @@ def build(case):
     return prog
 
 
-def f_ref(case, theta, vals):
-    """Reference value of the program for given site values (float64)."""
-    t0, t1 = np.float64(theta[0]), np.float64(theta[1])
-    acc = t0 * 1.0
-    first_disc = None
+def _first_disc(case, vals):
     for name, v in zip(case["sites"], vals):
-        if first_disc is None and (name.startswith("flip") or name == "cat_enum_parallel"):
-            first_disc = v
-        acc = fold(np, acc, v, t1)
+        if name.startswith("flip") or name == "cat_enum_parallel":
+            return v
+    return None
+
+
+def _pred(fd):
+    return bool(fd) if isinstance(fd, (bool, np.bool_)) else fd > 0
+
+
+def finish(case, theta, acc, vals):
+    """Reference value of the program given the running value after all sites (float64)."""
+    t0 = np.float64(theta[0])
+    first_disc = _first_disc(case, vals)
     r = ret_fn(np, case["ret"], acc, t0, None)
     if case["cond"] and first_disc is not None:
-        pred = bool(first_disc) if isinstance(first_disc, (bool, np.bool_)) else first_disc > 0
-        r = r * 1.5 + 0.2 if pred else r - 0.4 * r * r
+        r = r * 1.5 + 0.2 if _pred(first_disc) else r - 0.4 * r * r
     return float(r)
 
 
@@ -157,6 +175,49 @@ def gl(n):
     return (x + 1.0) / 2.0, w / 2.0
 
 
+def site_values(name, p, n):
+    """(value, weight) pairs: exact support for discrete sites, quadrature nodes for continuous ones."""
+    if name.startswith("flip"):
+        return [(True, float(p[0])), (False, 1 - float(p[0]))]
+    if name == "cat_enum_parallel":
+        lg = np.asarray(p[0])
+        pr = np.exp(lg - lg.max())
+        pr = pr / pr.sum()
+        return [(v, float(pr[v])) for v in range(len(pr))]
+    if name in ("normal_reparam", "normal_reinforce"):
+        xs, ws = gh(n)
+        return [(float(p[0] + p[1] * x), w) for x, w in zip(xs, ws)]
+    if name in ("uniform_reparam", "uniform_reinforce"):
+        xs, ws = gl(n)
+        return [(float(p[0] + (p[1] - p[0]) * x), w) for x, w in zip(xs, ws)]
+    if name in ("normal_reparam_vec", "uniform_reparam_vec"):
+        xs, ws = gh(max(8, n // 2)) if name.startswith("normal") else gl(max(8, n // 2))
+        out = []
+        for (x1, w1), (x2, w2) in itertools.product(zip(xs, ws), repeat=2):
+            z = np.array([x1, x2])
+            if name.startswith("normal"):
+                v = np.asarray(p[0]) + np.asarray(p[1]) * z
+            else:
+                v = np.asarray(p[0]) + (np.asarray(p[1]) - np.asarray(p[0])) * z
+            out.append((v, w1 * w2))
+        return out
+    if name == "geometric_reinforce":
+        q = float(p[0])  # success probability (geometric counts failures before the first success)
+        out = []
+        for kk in range(0, 160):
+            pr = (1 - q) ** kk * q
+            if pr < 1e-15:
+                break
+            out.append((float(kk), pr))
+        return out
+    if name in ("mvn_reparam", "mvn_reinforce", "mvn_diag_reparam"):
+        xs, ws = gh(max(8, n // 2))
+        L = np.diag(np.asarray(p[1])) if name == "mvn_diag_reparam" else np.linalg.cholesky(np.asarray(p[1]))
+        return [(np.asarray(p[0]) + L @ np.array([x1, x2]), w1 * w2)
+                for (x1, w1), (x2, w2) in itertools.product(zip(xs, ws), repeat=2)]
+    raise ValueError(name)
+
+
 def ref_expectation(case, theta, n=16):
     """E[f] by exact summation over discrete supports and quadrature over continuous sites."""
     t1 = np.float64(theta[1])
@@ -165,54 +226,18 @@ def ref_expectation(case, theta, n=16):
         if weight == 0.0:
             return 0.0
         if i == len(case["sites"]):
-            return weight * f_ref(case, theta, vals)
+            cs = case.get("cond_site")
+            fd = _first_disc(case, vals)
+            if cs and fd is not None:
+                if not _pred(fd):
+                    return weight * finish(case, theta, 0.7 * acc, vals)
+                return sum(weight * w * finish(case, theta, fold(np, acc, v, t1), vals)
+                           for v, w in site_values(cs, site_params(np, cs, acc, t1), n))
+            return weight * finish(case, theta, acc, vals)
         name = case["sites"][i]
-        p = site_params(np, name, acc, t1)
         tot = 0.0
-        if name.startswith("flip"):
-            for v, pr in ((True, float(p[0])), (False, 1 - float(p[0]))):
-                tot += rec(i + 1, fold(np, acc, v, t1), vals + [v], weight * pr)
-        elif name == "cat_enum_parallel":
-            lg = np.asarray(p[0])
-            pr = np.exp(lg - lg.max())
-            pr = pr / pr.sum()
-            for v in range(len(pr)):
-                tot += rec(i + 1, fold(np, acc, v, t1), vals + [v], weight * float(pr[v]))
-        elif name in ("normal_reparam", "normal_reinforce"):
-            xs, ws = gh(n)
-            for x, w in zip(xs, ws):
-                v = float(p[0] + p[1] * x)
-                tot += rec(i + 1, fold(np, acc, v, t1), vals + [v], weight * w)
-        elif name in ("uniform_reparam", "uniform_reinforce"):
-            xs, ws = gl(n)
-            for x, w in zip(xs, ws):
-                v = float(p[0] + (p[1] - p[0]) * x)
-                tot += rec(i + 1, fold(np, acc, v, t1), vals + [v], weight * w)
-        elif name in ("normal_reparam_vec", "uniform_reparam_vec"):
-            xs, ws = gh(max(8, n // 2)) if name.startswith("normal") else gl(max(8, n // 2))
-            for (x1, w1), (x2, w2) in itertools.product(zip(xs, ws), repeat=2):
-                z = np.array([x1, x2])
-                if name.startswith("normal"):
-                    v = np.asarray(p[0]) + np.asarray(p[1]) * z
-                else:
-                    v = np.asarray(p[0]) + (np.asarray(p[1]) - np.asarray(p[0])) * z
-                tot += rec(i + 1, fold(np, acc, v, t1), vals + [v], weight * w1 * w2)
-        elif name == "geometric_reinforce":
-            q = float(p[0])  # success probability (geometric counts failures before the first success)
-            for kk in range(0, 160):
-                pr = (1 - q) ** kk * q
-                if pr < 1e-15:
-                    break
-                tot += rec(i + 1, fold(np, acc, float(kk), t1), vals + [float(kk)], weight * pr)
-        elif name in ("mvn_reparam", "mvn_reinforce", "mvn_diag_reparam"):
-            xs, ws = gh(max(8, n // 2))
-            if name == "mvn_diag_reparam":
-                L = np.diag(np.asarray(p[1]))
-            else:
-                L = np.linalg.cholesky(np.asarray(p[1]))
-            for (x1, w1), (x2, w2) in itertools.product(zip(xs, ws), repeat=2):
-                v = np.asarray(p[0]) + L @ np.array([x1, x2])
-                tot += rec(i + 1, fold(np, acc, v, t1), vals + [v], weight * w1 * w2)
+        for v, w in site_values(name, site_params(np, name, acc, t1), n):
+            tot += rec(i + 1, fold(np, acc, v, t1), vals + [v], weight * w)
         return tot
 
     return rec(0, np.float64(theta[0]) * 1.0, [], 1.0)
@@ -336,8 +361,12 @@ def run_case(case):
     probes = {"kind_" + kind: 1, "cond": int(case["cond"])}
     for s in set(case["sites"]):
         probes["p_" + s] = 1
+    has_disc = any(s.startswith("flip") or s == "cat_enum_parallel" for s in case["sites"])
+    in_branch = case.get("cond_site") if has_disc else None
+    if in_branch:
+        probes["site_in_cond_branch"] = 1
     sig = dict(kind=kind, sites="+".join(case["sites"]), cond=case["cond"],
-               uses_uniform_reinforce="uniform_reinforce" in case["sites"])
+               uses_uniform_reinforce="uniform_reinforce" in case["sites"], site_in_cond_branch=in_branch)
     evals = 0
     th = [jnp.float32(t) for t in case["theta"]]
     try:
@@ -402,11 +431,12 @@ def run_case(case):
         probes["tree_budget"] = 1
     except Exception as e:
         viol.append(gfi.exc_violation(e, "adev", kind=kind, sites=sig["sites"],
-                                      enum_parallel_with_cond=bool(case["cond"] and any(s in ("flip_enum_parallel", "cat_enum_parallel")
+                                      site_in_cond_branch=in_branch,
+                                      enum_parallel_with_cond=bool((case["cond"] or in_branch) and any(s in ("flip_enum_parallel", "cat_enum_parallel")
                                                                                        for s in case["sites"]))))
     return {"violations": viol, "steps": evals, "probes": probes, "faults": {}, "evals": max(evals, 1),
-            "key": f"{kind}|{'+'.join(case['sites'])}|{case['cond']}|{case['ret']}",
-            "nontrivial": len(case["sites"]) >= 2 or case["cond"], "extra": {"trees_complete": probes.get("tree_complete", 0)}}
+            "key": f"{kind}|{'+'.join(case['sites'])}|{case['cond']}|{case['ret']}|{in_branch}",
+            "nontrivial": len(case["sites"]) >= 2 or case["cond"] or bool(in_branch), "extra": {"trees_complete": probes.get("tree_complete", 0)}}
 
 
 def real_checks(case, prog, th, want, wgrad, viol, sig, probes):
@@ -459,6 +489,14 @@ def shrink(case):
         c = copy.deepcopy(case)
         c["cond"] = False
         yield c
+    if case.get("cond_site"):
+        c = copy.deepcopy(case)
+        c["cond_site"] = None
+        yield c
+        if case["cond_site"] != "flip_enum" and case["kind"] != "enum_only":
+            c = copy.deepcopy(case)
+            c["cond_site"] = "flip_enum"
+            yield c
     if case["ret"] != "poly":
         c = copy.deepcopy(case)
         c["ret"] = "poly"
